@@ -35,6 +35,16 @@ def member_tasks(n, reps, nchunks, seed, confs="all", plain_graph_every=0):
             for i, ch in enumerate(chunks(labels, nchunks))]
 
 
+def neighbour_tasks(n, count, nchunks, seed, per_anchor=60):
+    """Anchors A (class-stratified members, mixed and unmixed generating sets) each followed immediately, in
+    the same process and on the same connectivity, by requests for valid stabilizers whose tableau differs
+    from A's in one or two bits."""
+    labels = sorted(set(lcorbit.orbit_table(n)))
+    rnd = random.Random(seed * 7 + n)
+    picks = [labels[rnd.randrange(len(labels))] for _ in range(count)]
+    return [("neigh", n, ch, per_anchor, seed * 1000 + 900 + i) for i, ch in enumerate(chunks(picks, nchunks))]
+
+
 FMT_CYCLE = ("str+", "str", "mat", "mat3", "circuit")
 HOSTILE = ("heavy", "canon", "reversed", "random", "random", "random")
 
@@ -91,6 +101,50 @@ def iter_cases(task):
                     m.update(conn=c, fmt=("graph" if m.get("graph_state") else FMT_CYCLE[k % len(FMT_CYCLE)]),
                              stratum="member%d" % n, label=label)
                     yield m
+    elif kind == "neigh":
+        _, n, labels, per_anchor, seed = task
+        rnd = random.Random(seed)
+        orb = lcorbit.orbit_members(n)
+        allconfs = oconn.configs_for(n)
+        for k, label in enumerate(labels):
+            a = ws.member(label, n, rnd, orb[label], style=ws.STYLES[k % len(ws.STYLES)], mix=bool(k % 3 == 0))
+            c = allconfs[rnd.randrange(len(allconfs))]
+            fmt = ("str+", "mat3")[k % 2]
+            nb = ws.tableau_neighbours(a["gens"], n)
+            rnd.shuffle(nb)
+            # singles first (they are few), then doubles up to the budget
+            singles = [g for g in nb if sum(1 for x, y in zip(g, a["gens"]) if x != y) == 1]
+            doubles = [g for g in nb if g not in singles]
+            reps = []
+            for j in (0, n - 1):
+                r = ws.generator_replacements(a["gens"], n, j)
+                rnd.shuffle(r)
+                reps += r[:max(4, per_anchor // 3)]
+            chosen = (singles + doubles)[:per_anchor] + reps
+            # ... and the states that differ from A by one single-qubit Clifford on one qubit (same class, all but one
+            # qubit identical)
+            from ..oracle.pauli import conj_circuit
+            locs = []
+            for q in range(n):
+                for lc in lcorbit.LC1[1:]:
+                    g1 = [(nm, (q,)) for nm in lc]
+                    locs.append([conj_circuit(x, g1) for x in a["gens"]])
+            rnd.shuffle(locs)
+            chosen = chosen + locs[:max(6, per_anchor // 3)]
+            rnd.shuffle(chosen)
+            anchor = dict(a, conn=c, fmt=fmt, stratum="neighbour-anchor%d" % n, label=label)
+            yield dict(anchor)
+            yield dict(anchor)                      # requested twice: caches that only keep what was asked for repeatedly
+            for g in chosen:
+                lab = lcorbit.orbit_label(g, n)
+                b = {"n": n, "gens": g, "circuit": None, "code": None, "graph_state": False, "conn": c, "fmt": fmt,
+                     "stratum": "neighbour%d" % n, "label": lab}
+                yield dict(b)
+                r = rnd.random()
+                if r < 0.25:
+                    yield dict(anchor)              # the confusion is possible in both directions
+                elif r < 0.4:
+                    yield dict(b)
     else:
         raise ValueError(kind)
 
